@@ -106,6 +106,17 @@ def check(prog, rep):
     if len(gparams) != 2:
         raise AnalysisError("get_moveable_names: unexpected signature")
 
+    # attributes every residue object starts with as an empty container (read from the constructors), so that a selection
+    # procedure that keeps state of its own can still be evaluated on the model
+    fresh_attrs = {}
+    for qual in ("Residue.__init__",):
+        for st in iter_stmts(prog.func("residue.py", qual).node.body):
+            if isinstance(st, ast.Assign) and isinstance(st.targets[0], ast.Attribute) and U(st.targets[0].value) == "self":
+                if isinstance(st.value, ast.Dict) and not st.value.keys:
+                    fresh_attrs[st.targets[0].attr] = dict
+                elif isinstance(st.value, ast.List) and not st.value.elts:
+                    fresh_attrs[st.targets[0].attr] = list
+
     def moved_names(adj, ranks, pivot):
         """Evaluate the selection procedure of get_moveable_names on the topology model of one residue."""
         resobj = {"__res__": True}
@@ -117,6 +128,8 @@ def check(prog, rep):
             atoms[a]["bonds"] = [atoms[b] for b in sorted(adj[a])]
         resobj["atoms"] = [atoms[a] for a in adj]
         resobj["map"] = atoms
+        for attr, mk in fresh_attrs.items():
+            resobj.setdefault(attr, mk())
 
         def hook(interp, call):
             nm = U(call.func)
@@ -218,6 +231,8 @@ def check(prog, rep):
     r1.add("no-ring-bonds", not ring_bad, f"dihedrals whose central bond lies in a ring: {ring_bad or 'none'}", "pdb2pqr/dat/AA.xml")
     r1.add("pivot-not-moved", not pivot_moved, "the pivot atom itself is never in the moved set" if not pivot_moved else
            f"the pivot atom is rotated in {pivot_moved[:3]}", f"pdb2pqr/residue.py:{gm.lineno} (get_moveable_names)")
+
+    selection_history_free(prog, r1, gm_info)
 
     # ------------------------------------------------------------------ R2
     r2 = rep.rule("R2", "coordinates are written only by constructors, on fresh atoms, or by the two rigid movers", floor=15)
@@ -325,6 +340,59 @@ def check(prog, rep):
         wat_ok = bool(lit) and mover not in reach_w
         detail = f"instantiation guarded by {gs}; Water methods reach set_dihedral_angle: {mover in reach_w}"
     r3.add("water-only-initialiser", wat_ok, detail, f"pdb2pqr/hydrogens/__init__.py:{iw.lineno} (initialize_wat_optimization)")
+
+
+MEMBERSHIP_MUTATORS = {"append", "remove", "insert", "pop", "extend", "clear"}
+
+
+def _self_state_writes(fn):
+    """Attributes of self that fn stores to (assignment, item store or mutator call)."""
+    out = set()
+    for n in walk_no_defs(fn):
+        if isinstance(n, ast.Attribute) and isinstance(n.ctx, ast.Store) and U(n.value) == "self":
+            out.add(n.attr)
+        if isinstance(n, ast.Subscript) and isinstance(n.ctx, (ast.Store, ast.Del)) and isinstance(n.value, ast.Attribute) and U(n.value.value) == "self":
+            out.add(n.value.attr)
+        if isinstance(n, ast.Call) and isinstance(n.func, ast.Attribute) and n.func.attr in MEMBERSHIP_MUTATORS | {"update", "setdefault"} \
+                and isinstance(n.func.value, ast.Attribute) and U(n.func.value.value) == "self":
+            out.add(n.func.value.attr)
+    return out
+
+
+def selection_history_free(prog, r1, gm_info):
+    """The moved set must be a function of the residue's current atoms and bonds.  If the selection procedure keeps
+    state on the residue (a memo), every method that changes the residue's atom membership must reset that state."""
+    gm = gm_info.node
+    where = f"pdb2pqr/residue.py:{gm.lineno} (Residue.get_moveable_names)"
+    written = _self_state_writes(gm)
+    read = {n.attr for n in walk_no_defs(gm) if isinstance(n, ast.Attribute) and isinstance(n.ctx, ast.Load) and U(n.value) == "self"}
+    memo = sorted(written & read) if written else []
+    if written and not memo:
+        memo = sorted(written)
+    if not memo:
+        r1.ok("selection-is-history-free", "get_moveable_names keeps no state on the residue: the moved set is recomputed from the current atoms "
+              "and bonds at every call", where)
+        return
+    # every method of a residue class that changes self.atoms must reset the memo
+    stale = []
+    n_mut = 0
+    for key, f in prog.funcs.items():
+        if f.cls is None or f.node is gm:
+            continue
+        changes = any(isinstance(n, ast.Call) and isinstance(n.func, ast.Attribute) and n.func.attr in MEMBERSHIP_MUTATORS
+                      and U(n.func.value) == "self.atoms" for n in walk_no_defs(f.node))
+        changes = changes or any(isinstance(n, ast.Delete) and any(U(t).startswith("self.atoms[") for t in n.targets) for n in walk_no_defs(f.node))
+        if not changes:
+            continue
+        n_mut += 1
+        resets = _self_state_writes(f.node)
+        if not set(memo) <= resets:
+            stale.append(f"{f.module.rel}:{f.node.lineno} {f.qual}")
+    r1.add("selection-is-history-free", not stale,
+           f"get_moveable_names keeps state in self.{', self.'.join(memo)}; {n_mut} methods change self.atoms"
+           + ("; all of them reset it (bond-only changes are not decided)" if not stale else
+              f"; these do not reset it: {stale}. A moved set computed before atoms are added through them (hydrogens built after the first "
+              "debump pass) is reused afterwards: the heavy atoms rotate and the new hydrogens stay behind"), where)
 
 
 def verify_writer(prog, f, stores, kind):
